@@ -186,6 +186,8 @@ func c10(c *Ctx) {
 			if h.renewable {
 				kk.RenewLifetime = time.Duration(h.renew) * time.Second
 			}
+			serves := hi%3 == 2 // this KDC serves the renewal of a just-expired service ticket (kdc.LenientRenewUsage)
+			kk.LenientRenewUsage = serves
 			if err := kk.Serve(); err != nil {
 				return
 			}
@@ -203,7 +205,7 @@ func c10(c *Ctx) {
 			}
 			idOf := map[string]int{}
 			current := map[string]kdc.Issue{}
-			var jops, jobs []jv.V
+			var jops, jobs, jpairs []jv.V
 			type chk struct {
 				ok          bool
 				oracle, sig string
@@ -225,6 +227,7 @@ func c10(c *Ctx) {
 					}
 					jops = append(jops, jv.L(jv.I(1)))
 					jobs = append(jobs, jv.L(jv.I(3)))
+					jpairs = append(jpairs, jv.L(jv.I(3)))
 					current = map[string]kdc.Issue{}
 					continue
 				}
@@ -270,7 +273,11 @@ func c10(c *Ctx) {
 				// the model is evaluated at t0; drop the history if a boundary of the entry that was current
 				// for this SPN before the call lies within 250 ms of the call
 				if prev, ok := current[spn]; ok {
-					for _, b := range []time.Time{prev.End, prev.Renew} {
+					bounds := []time.Time{prev.End, prev.Renew}
+					if serves {
+						bounds = append(bounds, prev.End.Add(time.Second)) // the KDC's tolerance for the expired ticket
+					}
+					for _, b := range bounds {
 						if !b.IsZero() && b.Sub(t0) < 250*time.Millisecond && b.Sub(t0) > -250*time.Millisecond-t1.Sub(t0) {
 							skipModel = true
 						}
@@ -281,6 +288,21 @@ func c10(c *Ctx) {
 				}
 				jops = append(jops, jv.L(jv.I(0), jv.I(int64(st.spn)), jv.I(t0.UnixNano()/1000000)))
 				jobs = append(jobs, jv.L(jv.I(int64(kind)), jv.I(int64(idOf[id]))))
+				// the pair as (n-th service ticket issued, session key of the m-th service ticket issued)
+				tidx, kidx, n := -1, -1, 0
+				for _, is := range kk.Issues {
+					if is.Kind != "TGS" {
+						continue
+					}
+					if is.TicketHash == id {
+						tidx = n
+					}
+					if string(is.Key.KeyValue) == string(key.KeyValue) {
+						kidx = n
+					}
+					n++
+				}
+				jpairs = append(jpairs, jv.L(jv.I(int64(kind)), jv.I(int64(tidx)), jv.I(int64(kidx))))
 			}
 			cl.Destroy()
 			mu.Lock()
@@ -303,7 +325,15 @@ func c10(c *Ctx) {
 				rn = h.renew
 			}
 			if !skipModel {
-				c.Case("client_run", jv.L(jv.I(int64(h.life)), jv.I(int64(rn)), jv.L(jops...)), jv.Ok(jobs...))
+				if !serves {
+					c.Case("client_run", jv.L(jv.I(int64(h.life)), jv.I(int64(rn)), jv.L(jops...)), jv.Ok(jobs...))
+				}
+				sv := 0
+				if serves {
+					sv = 1
+					c.Count("history:kdc-serves-renewals")
+				}
+				c.Case("client_pairs", jv.L(jv.I(int64(h.life)), jv.I(int64(rn)), jv.I(int64(sv)), jv.L(jops...)), jv.Ok(jpairs...))
 				c.Count("history:compared")
 			} else {
 				c.Count("history:dropped-boundary")
